@@ -171,7 +171,11 @@ fn build(init: &[String]) -> Result<Sess, String> {
             sess = Some(if dim == 2 { Sess::D2(s2::S2::load(n, mask, &groups)) } else { Sess::D3(s3::S3::load(n, mask, &groups)) });
         } else {
             let Some(s) = sess.as_mut() else { return Err("no map".into()) };
-            let r = match catch_unwind(AssertUnwindSafe(|| s.step(&toks))) {
+            // as hcimpl's main: the anchor / capture extension (`wanchor …`) first, then the session's own commands
+            let r = match catch_unwind(AssertUnwindSafe(|| match gris::step(s, &toks) {
+                Some(r) => r,
+                None => s.step(&toks),
+            })) {
                 Ok(r) => r,
                 Err(_) => "panic".to_string(),
             };
@@ -654,6 +658,9 @@ fn explore(pool: &mut Pool, sc: &Scenario) {
     let max_steps = sc.num("max_steps", 20000);
     pool.lockgran = sc.num("lockgran", 0) != 0;
     let flags_fixed = sc.threads.iter().all(|t| t.iter().all(|tx| tx.iter().all(|op| FLAG_PRESERVING.contains(&op[0].as_str()))));
+    // storages beyond the five of `capture` / `reset` (the anchors of honeycomb-kernels, mask bits 5..7): rebuild per schedule
+    let mask: u32 = sc.init.first().and_then(|l| l.split_ascii_whitespace().nth(3)).and_then(|m| m.parse().ok()).unwrap_or(0);
+    let flags_fixed = flags_fixed && mask & !31 == 0;
     if pool.lockgran && !flags_fixed {
         // commit() walks its variables in ADDRESS order: a map rebuilt for every schedule has other addresses, hence another
         // lock order, and recorded prefixes could not be replayed
